@@ -6,7 +6,7 @@ from common_tb import COMMON_TB
 CFG = dict(
     id="C13", tie="Tie.C13", n_quick=700, n_thorough=4000, thorough_seeds=3,
     rule="one case = one interleaved program of 1..3 sessions over the fixed schema ta / tb(AUTO_INCREMENT) / tc on a "
-         "fresh store: 22 hand-written programs (witnesses of the three known deviations, write-write / generated-key / "
+         "fresh store: 22 hand-written programs (witnesses of the two known deviations and of the fixed one, write-write / generated-key / "
          "range-scan conflicts, API corner cases) then random programs of 6..25 statements in five flavours (mixed; "
          "savepoint-heavy; no savepoints; savepoints without ROLLBACK TO; mixed): BEGIN via NewTx / BEGIN TRANSACTION / "
          "read-only, INSERT (explicit id, two rows, generated id), UPSERT, UPDATE and DELETE over id ranges, SELECT by "
@@ -35,7 +35,7 @@ CFG = dict(
         "front-end (pkg/pgsql/server: needs a live immudb gRPC server to authenticate) are NOT driven: they keep the "
         "session's *SQLTx and call pkg/database.DB.SQLExec/SQLQuery exactly as the harness's second executor does",
         "the Go oracle of the obvious spec (harness/c13/oracle.go) and its attribution of a difference to one of the "
-        "three known deviations (requires the deviating Go reference to agree with the engine and the transaction "
+        "two known deviations (requires the deviating Go reference to agree with the engine and the transaction "
         "to have exercised that deviation)",
     ],
     assumptions=[
